@@ -5,7 +5,8 @@
    Mirrors the pinned tree AS IT IS (including F3, F4 and the nil-Metadata panic):
      types/signed_header.go, types/header.go, types/signer.go, types/data.go, types/serialization.go,
      block/manager.go (isUsingExpectedSingleSequencer, isValidSignedData, execValidate),
-     block/retriever.go (handlePotentialHeader/Data), block/store.go (the two store loops),
+     block/retriever.go (handlePotentialHeader/Data, processNextDAHeaderAndData's blob loop),
+     types/da.go (RetrieveWithHelpers, success path: the batched read of one DA height), block/store.go (the two store loops),
      block/sync.go (SyncLoop, trySyncNextBlock, handleEmptyDataHash), block/da_includer.go,
      go-header v0.6.6 verify.go / p2p/subscriber.go:214 / sync/sync_head.go:158 / sync/sync_store.go:48.
    Definitions only. *)
@@ -335,21 +336,29 @@ Definition da_blob_step (g : genesis) (tb : exec_tbl) (s : nstate) (b : blob) : 
             | _, _ => 2%N
             end).
 
-(* retriever.go:83-92 over the blobs RetrieveWithHelpers returned; second component = how many of them
-   were admitted (got a DA-included mark).  A panic ends the goroutine. *)
-Fixpoint da_blobs_run (g : genesis) (tb : exec_tbl) (s : nstate) (bl : list blob) : nstate * N :=
+(* retriever.go:83-92 over the blobs RetrieveWithHelpers returned.  A panic ends the goroutine. *)
+Fixpoint da_blobs_run (g : genesis) (tb : exec_tbl) (s : nstate) (bl : list blob) : nstate :=
   match bl with
-  | [] => (s, 0%N)
-  | b :: r =>
-      if n_crashed s then (s, 0%N)
-      else let '(s1, o) := da_blob_step g tb s b in
-           let '(s2, k) := da_blobs_run g tb s1 r in
-           (s2, ((if (o =? 2)%N then 1 else 0) + k)%N)
+  | [] => s
+  | b :: r => if n_crashed s then s else da_blobs_run g tb (fst (da_blob_step g tb s b)) r
   end.
+
+(* what can be seen of a DA height from outside once it has been read: which of the blobs the DA layer holds
+   there have their header hash / data commitment marked DA-included by this read (the caches record the DA
+   height with the mark; a third-party copy of an admitted content shares its hash, hence its mark) *)
+Definition blob_marked (hm : list header) (dm : list commitment) (b : blob) : bool :=
+  match b with
+  | BHdr sh => mem_header (sh_hdr sh) hm
+  | BData sd => mem_commitment (d_txs (sd_data sd)) dm
+  | _ => false
+  end.
+Definition new_marks {A} (before after : list A) : list A := firstn (length after - length before) after.
+Definition marked_count (s s1 : nstate) (bl : list blob) : N :=
+  N.of_nat (length (filter (blob_marked (new_marks (n_hda s) (n_hda s1)) (new_marks (n_dda s) (n_dda s1))) bl)).
 
 (* one traffic item, followed by the ticks of the store loops.  Outcome code (what the harness observes):
    0 nothing, 1 handled-and-skipped (DA header), 2 admitted, 3 panic; for a whole DA height: 10 + the number
-   of its blobs that were admitted *)
+   of its blobs whose hash got a DA-included mark from this read *)
 Definition node_step (g : genesis) (now : Z) (tb : exec_tbl) (s : nstate) (i : item) : nstate * N :=
   if n_crashed s then (s, 0%N)
   else
@@ -366,7 +375,7 @@ Definition node_step (g : genesis) (now : Z) (tb : exec_tbl) (s : nstate) (i : i
       end
   | IDA b => da_blob_step g tb s b
   | IDAHeight bl =>                                                   (* retriever.go:73-93 *)
-      let '(s1, k) := da_blobs_run g tb s (fetched bl) in (s1, (10 + k)%N)
+      let s1 := da_blobs_run g tb s (fetched bl) in (s1, (10 + marked_count s s1 bl)%N)
   | IGossipH u =>
       if hstore_accepts now (n_hstore s) u
       then (forward_header g tb (set_ingress s (n_hda s) (n_dda s) (u :: n_hstore s) (n_dstore s) false) u, 2%N)
